@@ -217,6 +217,7 @@ M2_UndecodableNegativeMalformed  == Holds("M2/undecodable-negative-of-right-serv
 U1_NegativeNeverMismatch         == Holds("U1/negative-of-right-service-never-mismatch")
 U2_RightEchoNeverMismatch        == Holds("U2/right-service-right-echo-never-mismatch")
 
-(* every pair is decided: the procedure is total and terminates *)
-Terminates == <>(pc = "Reported")
+(* every pair is decided: the procedure is total (no state without a next
+   step before the decision is reported; pc strictly advances, so it terminates) *)
+Progress == pc # "Reported" => ENABLED Next
 =============================================================================
